@@ -42,3 +42,12 @@ claim('C18',
       'of its class.',
       'Trusted: exception tables in dsa/rules/c18.py (each entry with its reason), the receiver/callee resolution of dsa/resolve.py.',
       'DESIGN.md 4 C18')
+claim('C05',
+      'bounded-loop / terminating-guard check on the CFG (must-pass-through + concrete evaluation of the guard polarity), comparator-shape rules, source-merge completeness',
+      'Static conformance to the structural necessary conditions of C05 in DESIGN 4.5: the mesh loop advances unconditionally by the value of _check_dz; '
+      'a terminating guard rejects a non-positive step requirement on every path after its last definition (single writer); _check_dz returns req_dz or '
+      'the distance to the first strictly-crossed boundary; the boundary set merges all four sources with rounding and np.unique; the requirement is the '
+      'floored minimum over every assembly and the gap, a user step only replaces it when not larger, caps only lower it. Does not decide round-off of '
+      'nearly coincident bounds.',
+      'Trusted: ast/CFG construction; numpy semantics of np.unique (sorted) and np.around.',
+      'DESIGN.md 4 C05')
